@@ -266,7 +266,7 @@ def cases(draw, tier='quick'):
     if nt >= 2 and nvar >= 2 and draw(st.sampled_from([False] * 6 + [True])):
         off = cats[-1]['offset']
         alt = 1
-        while alt + off in usedfull or any(
+        while alt + off in usedfull or alt + off in forbidden or any(
                 tr['id'] == alt for tr in cats[-1]['tracers']):
             alt += 1
         row = dict(tracer=alt + off, name=names.pop(), fullname='swapped in',
@@ -661,6 +661,14 @@ def check_case(spec):
         r.label('scale-fills-field')
     if any(e['row']['scale'] < 0 for e in exp):
         r.label('scale<0')
+    fb = [e for e in exp if e['row'].get('fallback')]
+    if fb:
+        r.label('missing-offset-row')
+        if any(e['row']['bare_scale'] != 1.0 for e in fb):
+            r.label('missing-offset-row:bare-scale!=1')
+        if any(c['offset'] == 0 and tr['id'] == e['id']
+               for e in fb for c in spec['cats'] for tr in c['tracers']):
+            r.label('missing-offset-row:bare-tracer-in-offset0-category')
     if spec.get('swap'):
         r.label('irregular-tracer-set')
         return check_irregular(r, spec, exp, front)
